@@ -144,8 +144,10 @@ CLAIMED["C04"] = dict(
          "placed in every state, and the liveness property AtLeastOnce. Real consumers (1-4 members) run against the simulated coordinator with kills, stops, late joins, commit "
          "faults and fail-overs; Trace_Group.tla makes every accepted OffsetCommit, every first position of a newly owned partition and every delivery a guarded action "
          "(commit <= delivered prefix since the assignment's start; new owner starts at the committed offset it was given; deliveries contiguous from there), and a final event "
-         "demands that every record was delivered by some incarnation.",
-    design_ref="4/C04", note=TRACE_NOTE + " Plain logs (every offset visible).")
+         "demands that every record was delivered by some incarnation. Class txnlog: logs written by two transactional producers and a plain one "
+         "(committed and aborted transactions, markers), read_committed members; positions, accepted commits and the final coverage may step over markers and aborted records "
+         "(Hidden(tp), computed by the driver from the log it wrote) and over nothing else, and none of them is handed out.",
+    design_ref="4/C04", note=TRACE_NOTE + " Plain logs (every offset visible) except class txnlog.")
 CLAIMED["C05"] = dict(
     technique="GroupMembership spec (TLC): AdoptedIsDistributed / DisjointWithinGeneration / RevokeBeforeAssign + Trace_Group guards on real members' Adopt, listener callbacks, deliveries",
     category="model_checking",
@@ -192,7 +194,8 @@ CLAIMED["C19"] = dict(
          "producer.stop() (flush raced against the sender, Sender/client close) over the projected state (live tasks per component, armed timers, open connections, membership, coordinator "
          "reachability); TLC checks NothingLeft, StopReturnsNormally, ClosedInOrder, BoundedWaits, LeftIfReachable, StaticStays and StopTerminates under fairness from every configuration. "
          "The driver first records the instant of every event-loop iteration of a workload (each network message and timer firing is one), then re-runs the real client once per stopping point x "
-         "cluster condition (healthy, node down, node black-holed, all down, all black-holed, coordinator fail-over with/without state) and records the measured state at StopCall, at the return of each "
+         "cluster condition (healthy, node down (reset), controlled shutdown (EOF), brokers closing every connection with EOF while staying up, node black-holed, all down, all black-holed, "
+         "coordinator fail-over with/without state, group ACL revoked, producer fenced, group leader dead in the SyncGroup barrier, the member's own assignor failing as group leader) and records the measured state at StopCall, at the return of each "
          "component's close(), at StopReturn, after settling, plus the outcome of API calls made after stop and the LeaveGroup seen by the coordinator. Trace_Lifecycle.tla requires every event to be the "
          "corresponding Lifecycle action with the measured numbers, stop() to return normally within 2 x request + session + rebalance timeout + 1 s, nothing to be left, later calls to raise the "
          "documented error and a reachable, joined, non-static member to have left.",
